@@ -2,6 +2,7 @@ package rules
 
 import (
 	"fmt"
+	"go/token"
 	"go/types"
 	"strings"
 
@@ -69,6 +70,43 @@ func c14r6(p *model.Prog, r *report.Result) {
 		})
 	}
 
+	// ---- the confinement tests themselves reject "..", "../x" (and the root itself)
+	for fn, is := range map[*ssa.Function]bool{} {
+		_, _ = fn, is
+	}
+	checkConf := func(fn *ssa.Function) {
+		var rel ssa.Value
+		model.EachInstr(fn, func(in ssa.Instruction) {
+			if c, ok := in.(*ssa.Call); ok {
+				if o := model.CalleeObj(c.Common()); o != nil && o.Pkg() != nil && o.Pkg().Path() == "path/filepath" && o.Name() == "Rel" {
+					for _, ref := range *c.Referrers() {
+						if ex, isE := ref.(*ssa.Extract); isE && ex.Index == 0 {
+							rel = ex
+						}
+					}
+				}
+			}
+		})
+		eqDotDot, prefDotDot := false, false
+		model.EachInstr(fn, func(in ssa.Instruction) {
+			switch x := in.(type) {
+			case *ssa.BinOp:
+				if (x.Op == token.EQL || x.Op == token.NEQ) && ((x.X == rel && model.ConstStringIs(x.Y, "..")) || (x.Y == rel && model.ConstStringIs(x.X, ".."))) {
+					eqDotDot = true
+				}
+			case *ssa.Call:
+				if o := model.CalleeObj(x.Common()); o != nil && o.Pkg() != nil && o.Pkg().Path() == "strings" && o.Name() == "HasPrefix" && x.Call.Args[0] == rel {
+					if model.DependsOn(x.Call.Args[1], func(v ssa.Value) bool {
+						cs, isS := model.ConstString(v)
+						return isS && strings.HasPrefix(cs, "..") && len(cs) <= 3
+					}) {
+						prefDotDot = true
+					}
+				}
+			}
+		})
+		r.Check(rel != nil && eqDotDot && prefDotDot, "C14.R6", fkey(fn, "confine", "rejects-dotdot"), p.Pos(fn.Pos()), "tests rel == \"..\" and the \"../\" prefix", "the confinement test does not reject both a relative path equal to '..' and one starting with '../': a stream named '..' (or a request resolving to the parent) passes as 'inside the root'")
+	}
 	// ---- read side
 	nRead := 0
 	for _, fn := range lalFuncsIn(p, "pkg/hls") {
@@ -111,6 +149,28 @@ func c14r6(p *model.Prog, r *report.Result) {
 	}
 	if nNew < 1 {
 		r.Bad("C14.R6", "write|floor", "", "no caller of hls.NewMuxer found")
+	}
+
+	nConf := 0
+	for fn, is := range confMemo {
+		if is && model.IsLal(fn) {
+			// only the leaf that calls filepath.Rel itself
+			direct := false
+			model.EachInstr(fn, func(in ssa.Instruction) {
+				if c, ok := in.(ssa.CallInstruction); ok {
+					if o := model.CalleeObj(c.Common()); o != nil && o.Pkg() != nil && o.Pkg().Path() == "path/filepath" && o.Name() == "Rel" {
+						direct = true
+					}
+				}
+			})
+			if direct {
+				nConf++
+				checkConf(fn)
+			}
+		}
+	}
+	if nConf < 1 {
+		r.Bad("C14.R6", "confine|floor", "", "no confinement test (bool function on filepath.Rel) is used")
 	}
 
 	// ---- recordings
